@@ -90,7 +90,16 @@ func joeShm() *os.File {
 	if joeParent.shm != nil {
 		return joeParent.shm
 	}
-	f, err := os.CreateTemp("", "verif-joe-*.ev")
+	// scratch files live under the framework's .work directory when run from its root (bin/check),
+	// otherwise in the default temporary directory
+	dir := ""
+	if st, err := os.Stat(".work"); err == nil && st.IsDir() {
+		dir = ".work"
+	}
+	f, err := os.CreateTemp(dir, "verif-joe-*.ev")
+	if err != nil {
+		f, err = os.CreateTemp("", "verif-joe-*.ev")
+	}
 	if err != nil {
 		panic(err)
 	}
